@@ -4,6 +4,8 @@ package checks
 var Registry = map[string]func(tier string){
 	"C01": C01,
 	"C16": C16,
+	"C04": C04,
+	"C08": C08,
 	"C02": C02,
 	"C06": C06,
 	"C03": C03,
